@@ -9,11 +9,20 @@ def castOf : String → Option (Int → Int)
   | "dec" => some castDec
   | _ => none
 
+/-- a cast given as a finite table `[[value, promoted value], …]` (what numpy's promotion does to the values of this column,
+    computed by the harness with numpy itself, order-isomorphically coded) -/
+def tableCast (t : List (Int × Int)) (x : Int) : Int := (t.lookup x).getD x
+
 def keyOf (j : Json) : Except String KeyCol := do
   let c ← Driver.get? String j "cast"
-  let some f := castOf c | throw s!"bad cast {c}"
   let d ← Driver.get? (List Int) j "data"
-  pure ⟨f, d⟩
+  if c == "table" then
+    let rows ← Driver.get? (List (List Int)) j "table"
+    let t := rows.filterMap (fun r => match r with | [a, b] => some (a, b) | _ => none)
+    pure ⟨tableCast t, d⟩
+  else
+    let some f := castOf c | throw s!"bad cast {c}"
+    pure ⟨f, d⟩
 
 def targetOf (j : Json) : Except String Target := do
   let k ← Driver.get? String j "kind"
